@@ -1,6 +1,10 @@
 // C01 — monad / functor / applicative laws and coherence of the derived combinators of
 // option, try, either, seq, list, iterator, lazy, statet, fn0, fn1.
 //
+// Layout: core/ holds the plain-Go reference semantics, operand descriptors and the per-case
+// context; h<pkg>/ hold the harnesses (hand-written parts plus the zz_*.go call sites generated
+// by gen/ for every arity), one Go package each so that they compile in parallel.
+//
 // Batch b exercises package harnesses[b % len(harnesses)]. Case i of a batch runs the check
 // (one exported combinator, or one random expression program) selected by i alone, on
 // operands drawn from w.Rand(i); w.Site names the combinator right before every library call
@@ -11,64 +15,61 @@ import (
 	"sort"
 	"strings"
 
+	"verif/c01/core"
+	"verif/c01/hcoll"
+	"verif/c01/heither"
+	"verif/c01/hoption"
+	"verif/c01/hsmall"
+	"verif/c01/hstatet"
+	"verif/c01/htry"
+	"verif/c01/htryx"
 	"verif/vrt"
 )
 
-type pkgHarness struct {
-	prof    *profile
-	checks  []check
-	program *check   // random expression programs (nil: none)
-	extra   []string // further hit names (builder methods) that must be observed
-}
-
-var harnesses []pkgHarness
+var harnesses []core.PkgHarness
 
 func init() {
-	po, pt, pe, ps := programOption(), programTry(), programEither(), programStatet()
-	harnesses = []pkgHarness{
-		{profOption, append(checksOption(), builderChecksOption()...), &po, builderHitsOption()},
-		{profTry, append(checksTry(), builderChecksTry()...), &pt, builderHitsTry()},
-		{profEither, checksEither(), &pe, nil},
-		{profStatet, checksStatet(), &ps, nil},
-		{profSeq, checksSeq(), nil, nil},
-		{profList, checksList(), nil, nil},
-		{profIterator, checksIterator(), nil, nil},
+	tryChecks, tryProgram, tryExtra := htry.Parts()
+	harnesses = []core.PkgHarness{
+		hoption.Harness(),
+		{Prof: core.ProfTry, Checks: core.Concat(tryChecks, htryx.Checks()), Program: tryProgram, Extra: tryExtra},
+		heither.Harness(),
+		hstatet.Harness(),
 	}
-}
-
-// slots: the regular checks in order, then one program slot for every four checks.
-func (h *pkgHarness) slots() int {
-	if h.program == nil {
-		return len(h.checks)
-	}
-	return len(h.checks) + (len(h.checks)+3)/4
+	harnesses = append(harnesses, hcoll.Harnesses()...)
+	harnesses = append(harnesses, hsmall.Harnesses()...)
 }
 
 func batchesPerPkg(tier string) int {
 	if tier == "thorough" {
-		return 16
+		return 32
 	}
-	return 2
+	return 4
 }
 
-func casesPerBatch(tier string) int {
+// casesPerBatch: every slot of the package is visited at least 12 times per batch.
+func casesPerBatch(tier string, b int) int {
+	n := 4000
 	if tier == "thorough" {
-		return 7500
+		n = 12000
 	}
-	return 2000
+	if s := harnesses[b%len(harnesses)].Slots() * 12; s > n {
+		n = s
+	}
+	return n
 }
 
 func run(w *vrt.W) {
 	h := &harnesses[w.Batch%len(harnesses)]
 	round := w.Batch / len(harnesses)
-	n := h.slots()
+	n := h.Slots()
 	for i := w.From; i < w.To; i++ {
 		slot := i % n
-		rot := i/n + round*5
-		if slot < len(h.checks) {
-			runCheck(w, i, h.prof, h.checks[slot], rot)
+		rot := i/n + round*5 + slot
+		if slot < len(h.Checks) {
+			core.RunCheck(w, i, h.Prof, h.Checks[slot], rot)
 		} else {
-			runCheck(w, i, h.prof, *h.program, rot)
+			core.RunCheck(w, i, h.Prof, *h.Program, rot)
 		}
 	}
 }
@@ -76,16 +77,16 @@ func run(w *vrt.W) {
 func floors(tier string) map[string]int64 {
 	fl := map[string]int64{}
 	for _, h := range harnesses {
-		for _, c := range h.checks {
-			fl["hit."+c.name] = 1
+		for _, c := range h.Checks {
+			fl["hit."+c.Name] = 1
 		}
-		if h.program != nil {
-			fl["hit."+h.program.name] = 100
+		if h.Program != nil {
+			fl["hit."+h.Program.Name] = 100
 		}
-		for _, e := range h.extra {
+		for _, e := range h.Extra {
 			fl["hit."+e] = 1
 		}
-		fl["cases."+h.prof.pkg] = 1000
+		fl["cases."+h.Prof.Pkg] = 1000
 	}
 	return fl
 }
@@ -94,10 +95,18 @@ func main() {
 	vrt.Main(vrt.Config{
 		Property: "C01",
 		Batches:  func(tier string) int { return len(harnesses) * batchesPerPkg(tier) },
-		Cases:    func(tier string, b int) int { return casesPerBatch(tier) },
+		Cases:    casesPerBatch,
 		Run:      run,
 		Floors:   floors,
-		Rule:     "todo",
+		Rule:     "batch b exercises one of the 10 packages (b mod 10). Case i runs the check selected by i alone: one exported combinator of the package (every arity 2..9 of the arity-indexed families through generated call sites, every method of every ApplicativeFunctorK/MonadChainK), or - one slot in five - a random expression program (depth <=4 quick / <=6 thorough, bound variables, <=14*depth nodes) over the combinator palette, interpreted by the library and by the reference. Operands come from w.Rand(i): every constructor (Some/None/zero Option, Success/Failure(err1..4), Right/Left(l1..3), StateT pure / state-changing / always-failing / failing for part of the states, nil/empty/singleton/longer sequences, lists as Seq/cons/lazy, iterators from Seq/Of/List/ReverseSeq/Empty, Eval from Done/Call/TailCall), functions from parametrised total palettes including ones failing / returning empty for part of their domain; failure placement per case: none, exactly one operand, or independent 35 %. Oracle: (a) plain-Go reference (state -> (value, failure index, state) for Option/Try/Either/StateT observed at 1 resp. 4 probe states, the list monad on []int, the strict value for Eval, Go functions on 8 probe arguments for fn1), error identity = pointer identity of the injected sentinels; (b) for Map everywhere, and for the Iterator combinators that share a single-use operand by design, the definition written with the package's own FlatMap and unit on fresh identical operands. Every case is counted; distinct_nontrivial = number of distinct (combinator, tuple of operand shapes) pairs (operand shape = constructor variant + success/failure class, sequence shape; for programs the whole expression).",
+		Assumptions: []string{
+			"callbacks handed to the library are pure and total; effects order is observed through which failure / which state results, callback invocation order itself is C02",
+			"element types are int (and nested containers / curried functions of int); the combinators are parametric so the instantiation does not matter",
+			"the uninitialised fp.Try[T]{} is not an input; Option[T]{} is",
+			"StateT values are observed at the probe states 0,1,2,7; fn1 readers at 8 probe arguments",
+			"seq/list/iterator Zip/Zip3 are positional zips, not monadic products, and are left to C12",
+			"operands are PRNG-sampled, not exhaustive",
+		},
 		Finish: func(tier string, m *vrt.Merged, cov map[string]any) {
 			per := map[string]int{}
 			for k, v := range m.Counters {
@@ -107,6 +116,18 @@ func main() {
 				}
 			}
 			cov["combinators_hit_per_package"] = per
+			cases := map[string]int64{}
+			progs := map[string]int64{}
+			for k, v := range m.Counters {
+				if strings.HasPrefix(k, "cases.") {
+					cases[strings.TrimPrefix(k, "cases.")] = v
+				}
+				if strings.HasPrefix(k, "hit.") && strings.HasSuffix(k, ".program") {
+					progs[strings.TrimSuffix(strings.TrimPrefix(k, "hit."), ".program")] = v
+				}
+			}
+			cov["cases_per_package"] = cases
+			cov["programs_per_package"] = progs
 			names := make([]string, 0, len(per))
 			for k := range per {
 				names = append(names, k)
